@@ -13,6 +13,8 @@ for d in sorted(glob.glob(os.path.join(ROOT, "seeded", "*", ""))):
         pid = x.split(":")[0]
         if "VIOLATION" in x:
             res.append(pid + (": reported, no failing input" if "no-failing-input-found" in x else ": reported with failing input"))
+        elif "MISSED-AT-FIRST" in x:
+            res.append(pid + ": missed at first, check strengthened, now reported with failing input")
         elif "OK" in x:
             res.append(pid + ": not affected (OK)")
         else:
